@@ -36,6 +36,12 @@ F21 = "C11:asymptote-equality-accepted"
 F22 = "C11:pal-kepler-lowe-unconverged"
 
 DIM = {}
+EXERCISED = set()
+
+
+def exercised(*names):
+    EXERCISED.update(names)
+
 
 
 def dim(name, n=1):
@@ -588,7 +594,8 @@ def run(c):
                 fail("orbit-pomega", "pomega != Omega +- omega", dict(rep, pomega=o.pomega, Omega=o.Omega, omega=o.omega))
             if angdiff(o.theta, o.Omega + sgn * (o.omega + o.f)) > atol:
                 fail("orbit-theta", "theta != Omega +- (omega + f)", dict(rep, theta=o.theta))
-            if o.e > 1e-6 and o.M == o.M and angdiff(o.l, o.Omega + sgn * (o.omega + o.M)) > atol:
+            # (far out on a hyperbola |M| = |n T| >> 1 and its reduction mod 2 pi carries no digits: not comparable)
+            if o.e > 1e-6 and o.M == o.M and not (hyp and abs(o.n * o.T) > 1e6) and angdiff(o.l, o.Omega + sgn * (o.omega + o.M)) > atol:
                 fail("orbit-l", "l != Omega +- (omega + M)", dict(rep, l=o.l, M=o.M))
         # near-circular branch (e <= 1e-8): l = theta -+ 2 e sin f, with e sin f = vr h / mu and theta from atan2
         if 1e-10 <= o.e <= 1e-8 and o.l == o.l:
@@ -729,6 +736,21 @@ def run(c):
         if not all(math.isfinite(v) for v in pv):
             fail("from_pal-nonfinite", "reb_particle_from_pal returns a non-finite particle for valid Pal elements", rep)
             continue
+        # reb_tools_particle_to_pal (used by derivatives.c): tie + inverse of the constructor
+        oa_, ol_, ok_, oh_, oix_, oiy_ = D(0), D(0), D(0), D(0), D(0), D(0)
+        clib.reb_tools_particle_to_pal(D(G), p, mkpart(pr), ctypes.byref(oa_), ctypes.byref(ol_), ctypes.byref(ok_), ctypes.byref(oh_),
+                                       ctypes.byref(oix_), ctypes.byref(oiy_))
+        exercised("reb_tools_particle_to_pal", "reb_particle_from_pal", "reb_tools_solve_kepler_pal")
+        add("p2pal %s %s %s" % (d2h(G), phex(pv), phex(pr)), [d2h(x.value) for x in (oa_, ol_, ok_, oh_, oix_, oiy_)], "p2pal", rep)
+        if inc < PI - 1e-3 and e < 0.95 and abs(pp.value - (k * math.sin(lam + pp.value) - h * math.cos(lam + pp.value))) <= 1e-12:
+            condp = max(1.0, abs(lam)) / (1 - e) ** 2 * max(1.0, max(abs(x) for x in pr[:3]) / a)
+            bad = [nm for nm, got_, want_ in (("a", oa_.value / a, 1.0), ("k", ok_.value, k), ("h", oh_.value, h), ("ix", oix_.value, ix), ("iy", oiy_.value, iy))
+                   if not abs(got_ - want_) <= 1e-9 * condp]
+            if angdiff(ol_.value, lam) > 1e-8 * condp:
+                bad.append("lambda")
+            if bad:
+                fail("particle_to_pal-inverse:" + ",".join(bad), "reb_tools_particle_to_pal does not return the Pal elements reb_particle_from_pal was given",
+                     dict(rep, got=dict(a=oa_.value, l=ol_.value, k=ok_.value, h=oh_.value, ix=oix_.value, iy=oiy_.value)))
         # search: Pal's Kepler equation  q sin p' ... : lambda = (lambda+p) - (k sin(lambda+p) - h cos(lambda+p))  with p = k sin - h cos
         lp = lam + pp.value
         track("pal_kepler", abs(pp.value - (k * math.sin(lp) - h * math.cos(lp))))
@@ -771,6 +793,9 @@ def run(c):
 
     # ---------------------------------------------------------------- element round trips through the Python constructor
     roundtrips(c, rebound, clib, P, rng, fail, track, thorough, check_reader, rand_inc, rand_angle, add)
+
+    # ---------------------------------------------------------------- pairwise covering array over the configuration factors
+    pairwise_roundtrips(c, rebound, clib, P, rng, fail, track, thorough, check_reader, add)
 
     # ---------------------------------------------------------------- Python-only arguments with a C counterpart
     python_only(c, rebound, clib, P, rng, fail)
@@ -907,6 +932,8 @@ def run(c):
                         scales = [max(abs(a), abs(b), 1e-300) if kind == "fmod" else max(abs(a), abs(b), 1.0) for a, b in zip(gv, ev)]
                     # harmless re-association must not fire, a wrong sign / constant / branch must
                     tol = 1e-12 if kind in ("fmod", "mod2pi", "fo", "e2f") else 1e-9
+                    if kind == "p2pal" and len(gv) == 6 and abs(abs(gv[1] - ev[1]) - 2 * PI) <= 1e-9:
+                        gv[1] = ev[1]; gt[1] = e[1]
                     for a, b, ta, tb, sc in zip(gv, ev, gt, e, scales):
                         if ta == tb:
                             continue
@@ -932,6 +959,24 @@ def run(c):
     c.cov["pal_inputs"] = pal_hist
     c.cov["front_ends"] = fe
     c.cov["worst_measured"] = {k: float("%.3g" % v) for k, v in sorted(worst.items())}
+    # ---- public entry points that reach the mechanism: extracted from rebound.h / tools.h / rebound/*.py, each must be exercised
+    for kind_, names_ in (("mod2pi", ["reb_mod2pi"]), ("m2e", ["reb_M_to_E"]), ("m2f", ["reb_M_to_f"]), ("e2f", ["reb_E_to_f"]),
+                          ("fo", ["reb_particle_from_orbit_err"]), ("op", ["reb_orbit_from_particle_err"]), ("kpal", ["reb_tools_solve_kepler_pal"]),
+                          ("pal", ["reb_particle_from_pal"]), ("p2pal", ["reb_tools_particle_to_pal"]),
+                          ("fmt", ["reb_simulation_add_fmt", "reb_particle_from_fmt"])):
+        if by_kind.get(kind_, [0])[0] > 0:
+            exercised(*names_)
+    try:
+        c_entries, py_entries = extract_c11.extract_entry_points(REPO)
+        allent = c_entries + py_entries
+        miss = [e_ for e_ in allent if e_ not in EXERCISED]
+        c.cov["entry_points"] = {"c_extracted": len(c_entries), "python_extracted": len(py_entries), "exercised": len(allent) - len(miss), "missing": miss[:20]}
+        if len(c_entries) < 70 or len(py_entries) < 40:
+            c.broken.append("entry-point extraction found only %d C and %d Python entry points" % (len(c_entries), len(py_entries)))
+        if miss:
+            c.broken.append("public entry points that reach the mechanism but were not exercised in this run: " + ", ".join(miss[:12]))
+    except Exception as ex:
+        c.broken.append("entry-point extraction failed: %s" % ex)
     DIM["a_decades"] = len(a_decades)
     c.cov["dimensions"] = dict((k, DIM.get(k, 0)) for k in APPLICABLE_DIMS)
     c.cov["a_decades_covered"] = sorted(a_decades)
@@ -1561,7 +1606,7 @@ def python_only(c, rebound, clib, P, rng, fail):
             n1 = {"l": "lambda", "i": "inc"}.get(v1, v1)
             f_ = getattr(clib, "reb_particle_derivative_" + n1)
             f_.restype = P
-            want = f_(D(sim.G), prim, po)
+            want = f_(D(sim.G), prim, po); exercised("reb_particle_derivative_" + n1)
             try:
                 got = P(simulation=sim, primary=prim, variation=v1, **kw)
             except Exception as ex:
@@ -1587,7 +1632,7 @@ def python_only(c, rebound, clib, P, rng, fail):
                     continue
                 f_ = getattr(clib, "reb_particle_derivative_" + name)
                 f_.restype = P
-                want = f_(D(sim.G), prim, po)
+                want = f_(D(sim.G), prim, po); exercised("reb_particle_derivative_" + name)
                 try:
                     got = P(simulation=sim, primary=prim, variation=v1, variation2=v2, **kw)
                 except Exception as ex:
@@ -1648,6 +1693,476 @@ def python_only(c, rebound, clib, P, rng, fail):
 
 
 a_decades = set()
+
+
+# ------------------------------------------------------------------ pairwise covering array of the configuration factors
+PW_FACTORS = {
+    "entry": ["Particle", "sim.add", "add_fmt", "from_fmt", "from_orbit", "from_orbit_err", "from_pal", "setter"],
+    "kind": ["classical", "pal"],
+    "lon": ["-", "f", "M", "E", "l", "theta", "T"],
+    "peri": ["-", "omega", "pomega"],
+    "size": ["a", "P"],
+    "orbit": ["circ0", "nearcirc", "ell", "ell-high", "hyp", "hyp-nearpar"],
+    "inc": ["0", "tiny", "pro", "pi/2", "retro", "pi-tiny", "pi"],
+    "primary": ["com", "particle", "index", "hash"],
+    "G": ["1", "4pi2", "small", "rand"],
+    "t0": ["0", "pos", "neg"],
+    "phase": ["generic", "zero", "peri", "apo", "big", "neg"],
+    "ascale": ["1e-6", "1e-3", "1", "1e3", "1e6"],
+    "read": ["orbit(primary)", "orbit()", "orbits()", "attribute", "C:orbit_from_particle", "C:orbit_from_particle_err",
+             "particle_to_pal", "output_orbits"],
+}
+HYP = ("hyp", "hyp-nearpar")
+# combinations the code rejects or that are meaningless — excluded explicitly (factor, value, factor, value, reason)
+PW_FORBIDDEN = []
+for _o in HYP:
+    PW_FORBIDDEN += [("size", "P", "orbit", _o, "a period does not define a hyperbola"),
+                     ("phase", "apo", "orbit", _o, "no apocentre"), ("phase", "big", "orbit", _o, "f must stay inside the asymptotes"),
+                     ("kind", "pal", "orbit", _o, "Pal elements describe bound orbits"),
+                     ("read", "particle_to_pal", "orbit", _o, "reb_tools_particle_to_pal is for bound orbits")]
+for _l in ("f", "M", "E", "theta", "T"):
+    PW_FORBIDDEN.append(("kind", "pal", "lon", _l, "error 7: only l may accompany Pal elements"))
+for _p in ("omega", "pomega"):
+    PW_FORBIDDEN.append(("kind", "pal", "peri", _p, "error 7"))
+for _i in ("pi", "pi-tiny"):
+    PW_FORBIDDEN += [("kind", "pal", "inc", _i, "Pal variables are singular at inc = pi"), ("read", "particle_to_pal", "inc", _i, "singular at inc = pi"),
+                     ("entry", "from_pal", "inc", _i, "singular at inc = pi")]
+for _e in ("from_orbit", "from_orbit_err"):
+    PW_FORBIDDEN += [("entry", _e, "kind", "pal", "takes classical elements"), ("entry", _e, "size", "P", "takes a"),
+                     ("entry", _e, "peri", "pomega", "takes omega"), ("entry", _e, "primary", "index", "takes a particle"),
+                     ("entry", _e, "primary", "hash", "takes a particle")]
+    for _l in ("M", "E", "l", "theta", "T"):
+        PW_FORBIDDEN.append(("entry", _e, "lon", _l, "takes f"))
+PW_FORBIDDEN += [("entry", "from_pal", "kind", "classical", "takes Pal elements"), ("entry", "from_pal", "size", "P", "takes a"),
+                 ("entry", "from_pal", "primary", "index", "takes a particle"), ("entry", "from_pal", "primary", "hash", "takes a particle"),
+                 ("entry", "from_pal", "peri", "omega", "takes Pal elements"), ("entry", "from_pal", "peri", "pomega", "takes Pal elements")]
+for _l in ("f", "M", "E", "theta", "T"):
+    PW_FORBIDDEN.append(("entry", "from_pal", "lon", _l, "takes lambda"))
+for _o in HYP:
+    PW_FORBIDDEN.append(("entry", "from_pal", "orbit", _o, "bound orbits only"))
+for _e in ("add_fmt", "from_fmt"):
+    PW_FORBIDDEN += [("entry", _e, "primary", "index", "the C front end takes a particle"), ("entry", _e, "primary", "hash", "the C front end takes a particle")]
+PW_FORBIDDEN += [("entry", "setter", "lon", "E", "there is no E setter"), ("entry", "setter", "primary", "particle", "setters use the Jacobi centre of mass"),
+                 ("entry", "setter", "primary", "index", "setters use the Jacobi centre of mass"), ("entry", "setter", "primary", "hash", "setters use the Jacobi centre of mass")]
+_forb = set()
+for f1, v1, f2, v2, _why in PW_FORBIDDEN:
+    _forb.add((f1, v1, f2, v2)); _forb.add((f2, v2, f1, v1))
+
+
+def pw_valid(case):
+    ks = list(case)
+    for i, f in enumerate(ks):
+        for g in ks[i + 1:]:
+            if (f, case[f], g, case[g]) in _forb:
+                return False
+    return True
+
+
+def pw_pairs(case):
+    ks = sorted(case)
+    return {(f, case[f], g, case[g]) for i, f in enumerate(ks) for g in ks[i + 1:]}
+
+
+def covering_array(rng, factors, tries=150):
+    """greedy all-pairs: repeatedly take, out of `tries` random valid cases (half of them seeded with a still
+    uncovered pair), the one covering most uncovered pairs"""
+    names = sorted(factors)
+    allp = set()
+    for i, f in enumerate(names):
+        for g in names[i + 1:]:
+            for a in factors[f]:
+                for b in factors[g]:
+                    if (f, a, g, b) not in _forb:
+                        allp.add((f, a, g, b))
+    excluded = sum(len(factors[f]) * len(factors[g]) for i, f in enumerate(names) for g in names[i + 1:]) - len(allp)
+    uncovered = set(allp)
+    cases = []
+    stall = 0
+    while uncovered and stall < 30:
+        best, bestn = None, 0
+        ul = list(uncovered)
+        for t in range(tries):
+            case = dict((f, rng.choice(factors[f])) for f in names)
+            if t % 2 == 0:
+                f, a, g, b = ul[rng.randint(0, len(ul) - 1)]
+                case[f], case[g] = a, b
+            if not pw_valid(case):
+                continue
+            n = len(pw_pairs(case) & uncovered)
+            if n > bestn:
+                best, bestn = case, n
+        if best is None:
+            stall += 1
+            continue
+        stall = 0
+        cases.append(best)
+        uncovered -= pw_pairs(best)
+    return cases, allp, excluded, uncovered
+
+
+def pairwise_roundtrips(c, rebound, clib, P, rng, fail, track, thorough, check_reader, add):
+    """every pair of values of the configuration factors (element set x orbit class x inclination class x primary x G x t0 x
+    phase class x scale x constructing entry point x reading entry point) is generated at least once per run (greedy covering
+    array; 3-way for anomaly kind x orbit class x inclination class) and crossed with the element oracle"""
+    cases, allp, excluded, uncovered = covering_array(rng, PW_FACTORS)
+    # 3-way: the factors closest to the mechanism
+    three = []
+    for lo in PW_FACTORS["lon"]:
+        for ob in PW_FACTORS["orbit"]:
+            for ic in PW_FACTORS["inc"]:
+                case = dict((f, rng.choice(PW_FACTORS[f])) for f in PW_FACTORS)
+                case.update(lon=lo, orbit=ob, inc=ic, kind="classical")
+                for _ in range(60):
+                    if pw_valid(case):
+                        break
+                    for f in ("entry", "size", "phase", "primary", "read", "peri"):
+                        case[f] = rng.choice(PW_FACTORS[f])
+                if pw_valid(case):
+                    three.append(case)
+    reps = 6 if thorough else 1
+    seen = set()
+    stats = {"cases": 0, "threeway_cases": 0, "created": 0, "rejected_by_code": 0}
+    clib.reb_hash.restype = ctypes.c_uint32
+
+    def values(case):
+        ob = case["orbit"]
+        e = {"circ0": 0.0, "nearcirc": 10 ** rng.uniform(-9, -7), "ell": rng.uniform(0.01, 0.8), "ell-high": rng.uniform(0.9, 0.995),
+             "hyp": rng.uniform(1.2, 4.0), "hyp-nearpar": 1 + 10 ** rng.uniform(-4, -2)}[ob]
+        hyp = ob in HYP
+        inc = {"0": 0.0, "tiny": 10 ** rng.uniform(-12, -9), "pro": rng.uniform(0.05, 1.5), "pi/2": PI / 2, "retro": rng.uniform(1.65, 3.0),
+               "pi-tiny": PI - 10 ** rng.uniform(-12, -9), "pi": PI}[case["inc"]]
+        a = float(case["ascale"]) * rng.uniform(0.5, 2.0) * (-1 if hyp else 1)
+        G = {"1": 1.0, "4pi2": 39.476926421373, "small": 6.674e-11, "rand": 10 ** rng.uniform(-3, 3)}[case["G"]]
+        t0 = {"0": 0.0, "pos": 2.5, "neg": -12.5}[case["t0"]]
+        ph = case["phase"]
+        x = {"generic": rng.uniform(0.3, 2 * PI - 0.3), "zero": 0.0, "peri": rng.choice([1, -1]) * 10 ** rng.uniform(-9, -4),
+             "apo": PI + rng.choice([1, -1]) * 10 ** rng.uniform(-9, -4), "big": rng.uniform(2 * PI, 300), "neg": -rng.uniform(0.1, 300)}[ph]
+        if hyp:
+            fmax = math.acos(-1 / e)
+            if case["lon"] in ("f", "theta", "-"):
+                x = {"generic": rng.uniform(-0.9, 0.9) * fmax, "zero": 0.0, "peri": x, "neg": -rng.uniform(0.05, 0.9) * fmax}[ph]
+            else:
+                x = {"generic": rng.uniform(-3, 3), "zero": 0.0, "peri": x, "neg": -rng.uniform(0.1, 30)}[ph]
+        return e, inc, a, G, t0, x, hyp
+
+    def run_case(case, tag):
+        e, inc, a, G, t0, x, hyp = values(case)
+        pal = case["kind"] == "pal"
+        sim = rebound.Simulation()
+        sim.G = G
+        sim.t = t0
+        L_ = abs(a)
+        mstar = 1.0
+        vsc = math.sqrt(G * mstar / L_)
+        sim.add(m=mstar, x=0.3 * L_, y=-0.2 * L_, z=0.1 * L_, vx=0.01 * vsc, vy=-0.02 * vsc, vz=0.005 * vsc, hash="star")
+        sim.add(m=1e-3 * mstar, a=0.3 * L_, e=0.05, inc=0.1, f=1.0, hash="inner")
+        prim_kind = case["primary"]
+        com = clib.reb_simulation_com(ctypes.byref(sim))
+        prim = com if prim_kind == "com" else sim.particles[0]
+        prv = [prim.x, prim.y, prim.z, prim.vx, prim.vy, prim.vz, prim.m]
+        m = rng.choice([0.0, 1e-4 * mstar])
+        mu = G * (prv[6] + m)
+        Om = rng.choice([rng.uniform(0, 2 * PI), -rng.uniform(0, 7), 0.0])
+        om = rng.choice([rng.uniform(0, 2 * PI), rng.uniform(-7, 30), 0.0])
+        pro = math.cos(inc) > 0
+        nmean = math.sqrt(mu / abs(a) ** 3)
+        kw = {"m": m}
+        if pal:
+            ee = min(e, 0.9)
+            pom = rng.uniform(0, 2 * PI)
+            h_, k_ = ee * math.sin(pom), ee * math.cos(pom)
+            ixv, iyv = 2 * math.sin(inc / 2) * math.cos(Om), 2 * math.sin(inc / 2) * math.sin(Om)
+            lam = x if case["lon"] == "l" else 0.0
+            kw.update(h=h_, k=k_, ix=ixv, iy=iyv)
+            if case["lon"] == "l":
+                kw["l"] = lam
+            e, om = ee, math.atan2(h_, k_) - Om
+            M = lam - math.atan2(h_, k_)
+            f = f_of_E(e, solve_kepler(e, M))
+            if abs(math.sin(inc / 2)) < 1e-9:
+                Om = 0.0
+                om = math.atan2(h_, k_)
+        else:
+            kw.update(e=e, inc=inc, Omega=Om)
+            if case["peri"] == "omega":
+                kw["omega"] = om
+            elif case["peri"] == "pomega":
+                kw["pomega"] = (Om + om) if pro else (Om - om)
+            else:
+                om = 0.0
+            lon = case["lon"]
+            if lon in ("-", "f"):
+                f = x if lon == "f" else 0.0
+                if lon == "f":
+                    kw["f"] = f
+            elif lon == "theta":
+                f = x
+                kw["theta"] = (Om + om + f) if pro else (Om - om - f)
+            elif lon == "E":
+                kw["E"] = x
+                f = f_of_E(e, x)
+            else:
+                M = x
+                if lon == "M":
+                    kw["M"] = M
+                elif lon == "l":
+                    kw["l"] = (Om + om + M) if pro else (Om - om - M)
+                    M = (kw["l"] - Om - om) if pro else (Om - om - kw["l"])
+                else:
+                    kw["T"] = t0 - M / nmean
+                    M = nmean * (t0 - kw["T"])
+                f = f_of_E(e, solve_kepler_hyp(e, M) if hyp else solve_kepler(e, M))
+        if case["size"] == "P" and not pal:
+            kw["P"] = 2 * PI * math.sqrt(a ** 3 / mu)
+        else:
+            kw["a"] = a
+        rep = dict(case=case, kwargs=kw, G=G, t=t0, primary=prv)
+        entry = case["entry"]
+        names = [k_ for k_ in kw]
+        pkw = dict(kw)
+        if prim_kind == "particle":
+            pkw["primary"] = sim.particles[0]
+        elif prim_kind == "index":
+            pkw["primary"] = 0
+        elif prim_kind == "hash":
+            pkw["primary"] = "star"
+        cargs = [D(kw[n_]) for n_ in names]
+        cfmt = " ".join(names)
+        if prim_kind == "particle":
+            cfmt += " primary"
+            cargs.append(sim.particles[0])
+        newp = None
+        try:
+            if entry in ("Particle", "setter"):
+                newp = P(simulation=sim, **pkw); exercised("Particle.__init__")
+                sim.add(newp); exercised("Simulation.add")
+            elif entry == "sim.add":
+                sim.add(**pkw); exercised("Simulation.add", "Particle.__init__")
+            elif entry == "add_fmt":
+                clib.reb_simulation_add_fmt(ctypes.byref(sim), cfmt.encode(), *cargs); exercised("reb_simulation_add_fmt")
+                sim.process_messages()
+            elif entry == "from_fmt":
+                with CapStderr() as cap:
+                    q_ = clib.reb_particle_from_fmt(ctypes.byref(sim), cfmt.encode(), *cargs)
+                exercised("reb_particle_from_fmt")
+                if "Error" in cap.text:
+                    raise RuntimeError(cap.text.strip())
+                sim.add(q_)
+            elif entry in ("from_orbit", "from_orbit_err"):
+                if entry == "from_orbit":
+                    clib.reb_particle_from_orbit.restype = P
+                    q_ = clib.reb_particle_from_orbit(D(G), prim, D(m), D(a), D(e), D(inc), D(Om), D(om), D(f)); exercised("reb_particle_from_orbit")
+                else:
+                    er_ = ctypes.c_int(0)
+                    q_ = clib.reb_particle_from_orbit_err(D(G), prim, D(m), D(a), D(e), D(inc), D(Om), D(om), D(f), ctypes.byref(er_)); exercised("reb_particle_from_orbit_err")
+                    if er_.value:
+                        raise RuntimeError("error %d" % er_.value)
+                sim.add(q_)
+            elif entry == "from_pal":
+                q_ = clib.reb_particle_from_pal(D(G), prim, D(m), D(a), D(kw.get("l", 0.0)), D(kw["k"]), D(kw["h"]), D(kw["ix"]), D(kw["iy"])); exercised("reb_particle_from_pal")
+                sim.add(q_)
+        except (ValueError, RuntimeError) as ex:
+            stats["rejected_by_code"] += 1
+            fail("pairwise-valid-rejected:%s" % entry, "valid elements rejected through %s: %s" % (entry, str(ex)[:120]), rep)
+            return
+        if sim.N != 3:
+            fail("pairwise-not-added:%s" % entry, "no particle was added through %s" % entry, rep)
+            return
+        stats["created"] += 1
+        p = sim.particles[2]
+        pv = [p.x, p.y, p.z, p.vx, p.vy, p.vz, p.m]
+        if not all(math.isfinite(v_) for v_ in pv):
+            fail("pairwise-nonfinite:%s/%s" % (case["lon"], case["orbit"]), "valid elements give a non-finite particle", rep)
+            return
+        # ---- oracle: Cartesian state relative to the primary the elements refer to
+        want = kepler_to_cart(mu, a, e, inc, Om, om, f)
+        rel = [pv[j] - prv[j] for j in range(6)]
+        rs = math.sqrt(sum(w * w for w in want[:3])); vs = math.sqrt(sum(w * w for w in want[3:]))
+        big = max(1.0, abs(x), abs(Om), abs(om))
+        cond = big * max(1.0, 1 / abs(1 - e)) ** 2 * max(1.0, (rs / abs(a)) ** 2 * 1e-7) * (1e3 if pal else 1.0)
+        offp = 16 * 2.3e-16 * max(abs(w) for w in prv[:3]) / rs
+        offv = 16 * 2.3e-16 * max(abs(w) for w in prv[3:6]) / vs
+        ep_ = max(abs(rel[j] - want[j]) for j in range(3)) / rs
+        ev_ = max(abs(rel[j] - want[j]) for j in range(3, 6)) / vs
+        track("pairwise_vs_oracle", max(ep_ - offp, ev_ - offv, 0.0) / cond)
+        if not (ep_ <= 1e-9 * cond + offp and ev_ <= 1e-9 * cond + offv):
+            fail("pairwise-constructor:%s/%s/%s" % (entry, case["lon"], case["orbit"]), "the particle built is not the orbit the elements describe",
+                 dict(rep, ep=ep_, ev=ev_, f_oracle=f))
+        # ---- setters: change one element, the others must stay
+        wellc = (0.05 < e < 0.8) and case["inc"] in ("pro", "retro") and not pal
+        if entry == "setter":
+            o0 = p.orbit()
+            todo = []
+            if case["size"] == "P" and not hyp:
+                todo.append(("P", o0.P * rng.uniform(0.5, 2)))
+            else:
+                todo.append(("a", o0.a * rng.uniform(0.5, 2)))
+            if case["peri"] != "-":
+                todo.append((case["peri"], rng.uniform(0, 2 * PI)))
+            if case["lon"] in ("f", "M", "l", "theta", "T") and not hyp:
+                todo.append((case["lon"], rng.uniform(0, 2 * PI) if case["lon"] != "T" else t0 - rng.uniform(0, 1) * abs(o0.P)))
+            todo.append((rng.choice(["e", "inc", "Omega"] if not hyp else ["inc", "Omega"]), None))
+            if (pal or rng.chance(0.3)) and not hyp and e < 0.9 and case["inc"] in ("0", "tiny", "pro", "pi/2"):
+                for nm_ in ["pal_h", "pal_k", "pal_ix", "pal_iy"]:
+                    todo.append((nm_, rng.uniform(-0.2, 0.2)))
+            for nm, val in todo:
+                ob = p.orbit()
+                if val is None:
+                    val = {"e": rng.uniform(0.1, 0.7) if not hyp else rng.uniform(1.3, 3), "inc": rng.uniform(0.2, 1.2), "Omega": rng.uniform(0.1, 3)}[nm]
+                try:
+                    setattr(p, nm, val); exercised("Particle.%s.setter" % nm)
+                except (ValueError, RuntimeError) as ex:
+                    fail("setter-rejected:" + nm, "p.%s = value raises %s" % (nm, str(ex)[:100]), dict(rep, name=nm, value=val))
+                    continue
+                oa = p.orbit()
+                got = getattr(oa, nm)
+                ang = nm in ("Omega", "omega", "pomega", "f", "M", "l", "theta", "inc")
+                okv = (angdiff(got, val) <= 1e-6) if ang else (abs(got - val) <= 1e-7 * max(abs(val), 1e-3) * (1 + abs(oa.n * val) if nm == "T" else 1))
+                if nm == "T":
+                    okv = angdiff(oa.n * (got - val), 0.0) <= 1e-6 * max(1.0, abs(oa.n * (t0 - val))) if oa.e < 1 else abs(oa.n * (got - val)) <= 1e-6 * max(1.0, abs(oa.n * (t0 - val)))
+                if wellc and ob.e < 0.8 and oa.e < 0.8 and not okv:
+                    fail("setter-readback:" + nm, "after p.%s = v the orbit does not report %s = v" % (nm, nm), dict(rep, name=nm, value=val, got=got))
+                keep = {"a": ["e", "inc", "Omega", "omega", "f"], "P": ["e", "inc", "Omega", "omega", "f"], "e": ["a", "inc", "Omega", "omega", "f"],
+                        "inc": ["a", "e", "Omega", "omega", "f"], "Omega": ["a", "e", "inc", "omega", "f"], "omega": ["a", "e", "inc", "Omega", "f"],
+                        "pomega": ["a", "e", "inc", "Omega", "f"], "f": ["a", "e", "inc", "Omega", "omega"], "M": ["a", "e", "inc", "Omega", "omega"],
+                        "l": ["a", "e", "inc", "Omega", "omega"], "theta": ["a", "e", "inc", "Omega", "omega"], "T": ["a", "e", "inc", "Omega", "omega"],
+                        "pal_h": ["a", "pal_k", "pal_ix", "pal_iy"], "pal_k": ["a", "pal_h", "pal_ix", "pal_iy"],
+                        "pal_ix": ["a", "pal_h", "pal_k", "pal_iy"], "pal_iy": ["a", "pal_h", "pal_k", "pal_ix"]}[nm]
+                if wellc and ob.e < 0.8 and oa.e < 0.8 and 0.05 < oa.e and 0.05 < ob.e and abs(oa.inc - PI / 2) > 0.05 and abs(ob.inc - PI / 2) > 0.05 \
+                        and (oa.inc < PI / 2) == (ob.inc < PI / 2):
+                    for k2 in keep:
+                        b_, a_ = getattr(ob, k2), getattr(oa, k2)
+                        bad = (angdiff(a_, b_) > 1e-6) if k2 in ("inc", "Omega", "omega", "f") else (abs(a_ - b_) > 1e-7 * max(abs(b_), 1e-3))
+                        if bad:
+                            fail("setter-side-effect:%s->%s" % (nm, k2), "setting %s changes %s" % (nm, k2), dict(rep, name=nm, value=val, before=b_, after=a_))
+                c.count(("pairwise", "setter", nm))
+            pv = [p.x, p.y, p.z, p.vx, p.vy, p.vz, p.m]
+        # ---- read back through the requested entry point
+        read = case["read"]
+        clib.reb_simulation_jacobi_com.restype = P
+        jac = clib.reb_simulation_jacobi_com(ctypes.byref(p))
+        same_primary = (prim_kind == "com")
+        rprim = jac
+        o = None
+        if read == "orbit(primary)":
+            rprim = sim.particles[0] if not same_primary else jac
+            o = p.orbit(primary=rprim); exercised("Particle.orbit")
+            same_primary = True
+        elif read == "orbit()":
+            o = p.orbit(); exercised("Particle.orbit")
+        elif read == "orbits()":
+            o = sim.orbits()[1]; exercised("Simulation.orbits")
+        elif read == "attribute":
+            class _O:
+                pass
+            o = _O()
+            for k2 in ["d", "v", "h", "P", "n", "a", "rhill", "e", "inc", "Omega", "omega", "pomega", "f", "M", "l", "theta", "T",
+                       "pal_h", "pal_k", "pal_ix", "pal_iy"]:
+                setattr(o, k2, getattr(p, k2)); exercised("Particle." + k2)
+            hv, evv = p.hvec, p.evec; exercised("Particle.hvec", "Particle.evec")
+            oref = p.orbit()
+            if [d2h(w) for w in hv] != [d2h(oref.hvec.x), d2h(oref.hvec.y), d2h(oref.hvec.z)] or \
+                    [d2h(w) for w in evv] != [d2h(oref.evec.x), d2h(oref.evec.y), d2h(oref.evec.z)]:
+                fail("attribute-vectors", "p.hvec / p.evec differ from p.orbit()", rep)
+            for k2 in ORB_FIELDS:
+                if d2h(getattr(o, k2)) != d2h(getattr(oref, k2)):
+                    fail("attribute:" + k2, "p.%s differs from p.orbit().%s" % (k2, k2), rep)
+        elif read in ("C:orbit_from_particle", "C:orbit_from_particle_err"):
+            rprim = sim.particles[0] if not same_primary else jac
+            same_primary = True
+            if read.endswith("_err"):
+                er_ = ctypes.c_int(0)
+                o = clib.reb_orbit_from_particle_err(D(G), p, rprim, ctypes.byref(er_)); exercised("reb_orbit_from_particle_err")
+            else:
+                clib.reb_orbit_from_particle.restype = rebound.Orbit
+                o = clib.reb_orbit_from_particle(D(G), p, rprim); exercised("reb_orbit_from_particle")
+        elif read == "particle_to_pal":
+            rprim = sim.particles[0] if not same_primary else jac
+            same_primary = True
+            outs = [D(0) for _ in range(6)]
+            clib.reb_tools_particle_to_pal(D(G), p, rprim, *[ctypes.byref(w) for w in outs]); exercised("reb_tools_particle_to_pal")
+            o = p.orbit(primary=rprim)
+            for nm, w in zip(["a", None, "pal_k", "pal_h", "pal_ix", "pal_iy"], outs):
+                if nm and math.isfinite(w.value) and o.e < 0.95 and not abs(w.value - getattr(o, nm)) <= 1e-9 * max(abs(w.value), 1.0) * cond:
+                    fail("particle_to_pal-vs-orbit:" + nm, "reb_tools_particle_to_pal and reb_orbit_from_particle disagree on " + nm, dict(rep, got=w.value, want=getattr(o, nm)))
+            add("p2pal %s %s %s" % (d2h(G), " ".join(d2h(w) for w in pv), " ".join(d2h(getattr(rprim, k2)) for k2 in COMPS + ["m"])),
+                [d2h(w.value) for w in outs], "p2pal", rep)
+        elif read == "output_orbits":
+            fn = tempfile.mktemp(prefix="c11orb.")
+            clib.reb_simulation_output_orbits(ctypes.byref(sim), fn.encode()); exercised("reb_simulation_output_orbits")
+            try:
+                rows = [l.split() for l in open(fn).read().splitlines()]
+            finally:
+                if os.path.exists(fn):
+                    os.remove(fn)
+            o = p.orbit()
+            if len(rows) != 2:
+                fail("output_orbits-rows", "reb_simulation_output_orbits wrote %d rows for N=3" % len(rows), rep)
+            else:
+                tt, oa_, oe_, oi_, oO_, oo_, ol_, oP_, of_ = [float(w) for w in rows[1]]
+                for nm, got_ in (("a", oa_), ("e", oe_), ("inc", oi_), ("Omega", oO_), ("omega", oo_), ("l", ol_), ("P", oP_), ("f", of_)):
+                    w_ = getattr(o, nm)
+                    if w_ == w_ and not abs(got_ - w_) <= 2e-6 * max(abs(w_), 1e-300) + 1e-300:
+                        fail("output_orbits:" + nm, "reb_simulation_output_orbits column %s is not the Jacobi orbit" % nm, dict(rep, got=got_, want=w_))
+                if abs(tt - t0) > 1e-6 * max(1.0, abs(t0)):
+                    fail("output_orbits:t", "time column wrong", dict(rep, got=tt))
+        # tie + all reader relations on the state with the primary actually used
+        check_reader(G, pv, [rprim.x, rprim.y, rprim.z, rprim.vx, rprim.vy, rprim.vz, rprim.m], "pairwise:" + read)
+        # elements given == elements read (well conditioned, same primary, not modified by setters)
+        if o is not None and same_primary and entry != "setter" and wellc and abs(inc - PI / 2) > 0.05 and not hyp:
+            condr = cond * 10
+            if not abs(o.a - a) <= 1e-9 * abs(a) * condr or not abs(o.e - e) <= 1e-9 * condr or angdiff(o.inc, inc) > 1e-7:
+                fail("pairwise-readback-a-e-inc:" + read, "elements read back differ from the elements given", dict(rep, a=o.a, e=o.e, inc=o.inc))
+            lon = case["lon"]
+            if lon in ("f", "M", "l", "theta") and angdiff(getattr(o, lon), kw[lon]) > 1e-6 * condr:
+                fail("pairwise-readback-%s:%s" % (lon, read), "%s read back differs from the %s given" % (lon, lon), dict(rep, got=getattr(o, lon)))
+            if lon == "T" and angdiff(nmean * (o.T - kw["T"]), 0.0) > 1e-6 * condr * max(1.0, abs(nmean * (t0 - kw["T"]))):
+                fail("pairwise-readback-T:" + read, "T read back differs from the T given", dict(rep, got=o.T))
+        seen.update(pw_pairs(case))
+        c.count(("pairwise", tag, entry, read, case["lon"], case["orbit"], case["inc"]))
+
+    for r_ in range(reps):
+        for case in cases:
+            run_case(case, "2way")
+            stats["cases"] += 1
+    for case in three:
+        run_case(case, "3way")
+        stats["threeway_cases"] += 1
+    # E property of Orbit, sample_orbit, tools wrappers: cheap smoke with oracle
+    sim = rebound.Simulation(); sim.add(m=1.0); sim.add(a=1.3, e=0.3, inc=0.2, Omega=0.1, omega=0.4, M=1.1)
+    o = sim.particles[1].orbit()
+    if abs(math.remainder(o.E - o.e * math.sin(o.E) - o.M, 2 * PI)) > 1e-12:
+        fail("Orbit.E", "Orbit.E does not satisfy Kepler's equation", dict(E=o.E, M=o.M, e=o.e))
+    exercised("Orbit.E")
+    for hypc in (False, True):
+        s2 = rebound.Simulation(); s2.add(m=1.0)
+        s2.add(a=-1.3 if hypc else 1.3, e=1.7 if hypc else 0.3, inc=0.4, Omega=0.3, omega=0.2, f=0.3)
+        pts = s2.particles[1].sample_orbit(Npts=40, primary=s2.particles[0]); exercised("Particle.sample_orbit")
+        o2 = s2.particles[1].orbit(primary=s2.particles[0])
+        for xyz in pts:
+            rr = math.sqrt(sum(w * w for w in xyz))
+            # every sampled point lies on the conic: r (1 + e cos f) = a (1 - e^2) with cos f from the e-vector
+            cf_ = (xyz[0] * o2.evec.x + xyz[1] * o2.evec.y + xyz[2] * o2.evec.z) / (rr * o2.e)
+            if not abs(rr * (1 + o2.e * cf_) - o2.a * (1 - o2.e ** 2)) <= 1e-9 * abs(o2.a):
+                fail("sample_orbit", "sample_orbit returns a point off the osculating conic", dict(hyperbolic=hypc, point=list(xyz)))
+                break
+    for nm, fn, cfn in (("mod2pi", rebound.mod2pi, clib.reb_mod2pi), ("M_to_E", rebound.M_to_E, clib.reb_M_to_E),
+                        ("M_to_f", rebound.M_to_f, clib.reb_M_to_f), ("E_to_f", rebound.E_to_f, clib.reb_E_to_f)):
+        for _ in range(20):
+            e_, x_ = rng.choice([rng.uniform(0, 0.95), rng.uniform(1.1, 3)]), rng.uniform(-20, 20)
+            g_ = fn(x_) if nm == "mod2pi" else fn(e_, x_)
+            w_ = cfn(D(x_)) if nm == "mod2pi" else cfn(D(e_), D(x_))
+            if d2h(g_) != d2h(w_):
+                fail("tools-wrapper:" + nm, "rebound.%s differs from reb_%s" % (nm, nm), dict(e=e_, x=x_))
+        exercised("rebound." + nm, "reb_" + nm)
+    total = len(allp)
+    missing = sorted(allp - seen)
+    c.cov["pairs"] = {"covered": len(seen & allp), "total": total, "excluded": excluded, "cases": len(cases), "threeway_cases": len(three),
+                      "factors": dict((f, len(v)) for f, v in PW_FACTORS.items()), "missing": [list(m_) for m_ in missing[:20]],
+                      "exclusion_reasons": sorted({w[4] for w in PW_FORBIDDEN})}
+    c.cov["pairwise_stats"] = stats
+    if missing:
+        c.broken.append("pairwise coverage of the configuration factors incomplete: %d of %d pairs never generated (first: %s)" % (len(missing), total, missing[0]))
 
 
 def roundtrips(c, rebound, clib, P, rng, fail, track, thorough, check_reader, rand_inc, rand_angle, add):
